@@ -7,7 +7,7 @@ NOT_APPLICABLE_FAULTS = {
     "partition_and_heal": "single process, no peers",
     "crash_restart_with_durable_state": "a5-rs writes no durable state; the only restart it has is a caller thread ending and a new one starting with a cold memo, which is injected as thread_exit / thread_spawn_cold / restart_after_exit",
     "clock_skew": "single process, one clock: there is no second node whose clock could disagree. (Clock JUMPS are injected, see faults_fired: a5-rs reads no clock today, but a change that introduces one is exercised through an LD_PRELOAD seam.)",
-    "disk_errors_and_full_disk": "no file or stream I/O under src/, so no write can fail. (Torn / lost / corrupted writes ARE injected by Engine W between the processes of a chain, on any file a changed library leaves in its temp directory; see engines.W.disk_faults.)",
+    "disk_errors_and_full_disk": "no file or stream I/O under src/, so on the unchanged tree no write exists that could fail. The fault kinds are nevertheless armed (file-system seam in the LD_PRELOAD shim + a private temp / home directory per process): torn / lost / zero-tailed / bit-flipped files between the processes of an Engine-W chain and before steps of an Engine-H scenario, short writes / ENOSPC / EIO / failed fsync / failed rename on files the library opens under that directory; their fired counters are reported and are 0 here because nothing is ever written.",
     "failing_allocations_and_syscalls": "Rust aborts on allocation failure (no recoverable path to check); no system calls besides thread-local and once-cell primitives of std",
 }
 
@@ -28,6 +28,10 @@ def h_engine_summary(o):
         "restart_after_exit": s["restart_after_exit"],
         "hash_rekey": s["hash_rekey"],
         "clock_jump(LD_PRELOAD clock seam: simulated CLOCK_MONOTONIC/REALTIME leap forward 1 ms .. 30 days)": s.get("clock_jumps", 0),
+        "disk_fault_points(steps before which a file the library left in its temp directory is torn / lost / zero-tailed / bit-flipped)": s.get("disk_fault_points", 0),
+        "disk_faults_applied(0 while the library writes no file)": s.get("disk_faults_applied", {}),
+        "scenarios_with_write_path_faults(short write, ENOSPC, EIO, failed fsync, failed rename on files the library opens under its temp directory)": s.get("fs_write_fault_scenarios", 0),
+        "write_path_faults_fired(0 while the library writes no file)": s.get("fs_write_faults_fired", 0),
         "calls_from_thread_local_destructor_at_thread_exit": s.get("teardown_ops", 0),
         "library_internal_threads_taken_under_scheduler_control(pthread_create seam)": s.get("library_threads", 0),
         "instance_handoff": s["instance_handoff"],
